@@ -12,13 +12,12 @@ namespace Model.Nilsimsa
 def scanFuel : Nat := 256 * 257
 
 /-- `k=0; while k<i: (if T[k]==j: j=(j+1)&255; k=0); k+=1` — note that after a collision the scan resumes at
-    k = 1 (as in nilsimsa 0.2.4's `for` loop).  `T` holds the entries assigned so far (`i = T.length`). -/
-def scan (T : List Nat) : Nat → Nat → Nat → Nat
+    k = 1 (as in nilsimsa 0.2.4's `for` loop).  `T` holds the entries assigned so far (`i = T.length`);
+    the third argument is `T[k:]`, the part of the table still to be compared in this pass. -/
+def scan (T : List Nat) : Nat → Nat → List Nat → Nat
   | 0, j, _ => j
-  | fuel + 1, j, k =>
-    if k < T.length then
-      if T.getD k 0 = j then scan T fuel ((j + 1) &&& 255) 1 else scan T fuel j (k + 1)
-    else j
+  | _ + 1, j, [] => j
+  | fuel + 1, j, x :: rest => if x = j then scan T fuel ((j + 1) &&& 255) (T.drop 1) else scan T fuel j rest
 
 def maketranAux (target : Nat) : Nat → Nat → List Nat → List Nat
   | 0, _, T => T
@@ -26,7 +25,7 @@ def maketranAux (target : Nat) : Nat → Nat → List Nat → List Nat
     let j1 := (j * target + 1) &&& 255
     let j2 := j1 + j1
     let j3 := if j2 > 255 then j2 - 255 else j2
-    let j4 := scan T scanFuel j3 0
+    let j4 := scan T scanFuel j3 T
     maketranAux target n j4 (T ++ [j4])
 
 /-- `maketran(target)` -/
